@@ -36,6 +36,7 @@ type Ctx struct {
 	KnownWhat  map[string]string
 	Counters   map[string]int64
 	Samples    []any
+	evalKeys   []string
 	Notes      []string
 	distinct   map[string]struct{}
 	Evals      int64
@@ -107,6 +108,11 @@ func (c *Ctx) Eval(key string, nontrivial bool) {
 	c.Evals++
 	if nontrivial {
 		c.distinct[key] = struct{}{}
+	}
+	// checks that write no samples of their own still show what was evaluated: the keys of the
+	// first few evaluated cases (a key identifies the case; see Finish)
+	if len(c.evalKeys) < 4 && key != "" && len(key) <= 400 {
+		c.evalKeys = append(c.evalKeys, key)
 	}
 	c.mu.Unlock()
 }
@@ -201,6 +207,14 @@ func (c *Ctx) Finish(rule string, extra map[string]any) int {
 	sort.Strings(keys)
 	for _, k := range keys {
 		fmt.Printf("KNOWN-FINDING: property=%s %s [%s, %d hits]\n", c.Prop, c.KnownWhat[k], k, c.Known[k])
+	}
+	if len(c.Samples) == 0 {
+		for _, k := range c.evalKeys {
+			c.Samples = append(c.Samples, map[string]any{"evaluated_case_key": k})
+		}
+	}
+	if c.Samples == nil {
+		c.Samples = []any{}
 	}
 	cov := map[string]any{
 		"evaluations":                   c.Evals,
